@@ -11,7 +11,7 @@
 From Coq Require Import String List ZArith NArith Bool.
 Import ListNotations.
 From Selfies Require Import Base Generated Atoms Grammar Decoder PySet Matching Smiles Kekulize Encoder
-  IndexSpec IndexCode Reader RoundTrip EncoderFacts PureFacts EncAttr EncStereo EncChir.
+  IndexSpec IndexCode Reader RoundTrip EncoderFacts PureFacts EncAttr EncStereo EncChir EncRing EncRingM.
 Local Open Scope string_scope.
 
 Definition C04_full_statement : Prop :=
@@ -46,6 +46,22 @@ Theorem C04_tags_outside_rings_faithful_partial : forall T smiles strict x maps 
     Forall2 (fun toks ms => Walked (chir_back (m_ringflags m) ts) m toks (map ent ms)) tss mss.
 Proof. exact encoder_tags_faithful. Qed.
 
+(* marks of ring-closure bonds at symbol level (proofs/EncRingM.v): every ring symbol is printed for one closing ring bond b of
+   the kekulised graph (rv = the same bond as stored at the opening atom); when b is single and one of the two carries
+   a mark, the prefix of the ring symbol is exactly [mark of rv; mark of b] with '-' for a missing one - the form the
+   decoder's ring cache reads back as (left mark, right mark) - and both marks are the ones stored in the same slots of
+   the reader's graph.  Not covered: that those are the marks written at the two ring digits of the SMILES. *)
+Theorem C04_ring_marks_faithful_partial : forall T smiles strict attribute x maps,
+  encoder T smiles strict attribute = Ok (x, maps) ->
+  exists m0 m tss, smiles_to_mol smiles attribute = Ok m0 /\ x = join (lit ".") (map (@concat N) tss) /\ Forall (TW (ring_marks m0 m)) tss.
+Proof. exact encoder_ring_marks. Qed.
+
+Example C04_ring_marks_example :
+  match encoder default_constraints (lit "C/1=C/CCCCCC1") true false with
+  | Ok (x, _) => str_eqb x (lit "[C][=C][/C][C][C][C][C][C][/-Ring1][Branch2]")
+  | Err _ => false end = true.
+Proof. vm_compute. reflexivity. Qed.
+
 Example C04_tags_example :
   match encoder default_constraints (lit "N[C@@H](C)C(=O)O") true false with
   | Ok (x, _) => str_eqb x (lit "[N][C@@H1][Branch1][C][C][C][=Branch1][C][=O][O]")
@@ -61,3 +77,4 @@ Proof. vm_compute. reflexivity. Qed.
 Print Assumptions C04_adjacent_swap_flips_parity_partial.
 Print Assumptions C04_chain_marks_faithful_partial.
 Print Assumptions C04_tags_outside_rings_faithful_partial.
+Print Assumptions C04_ring_marks_faithful_partial.
